@@ -37,7 +37,7 @@ def build(U):
     #[verifier::external_body] fn generate_free_chunks_for_ordered_proxy_index(&self, expected_num: NonZeroUsize, start_index: usize) -> (r: Result<Vec<[ProxyResource; CHUNK_PARTS]>, MetaStoreError>)
         ensures r matches Ok(v) ==> resources_registered(*old(self.store), v@)
     { unimplemented!() }
-    // FnMut closure over the slot cursor: out of reach; assumed (read off the code): chunk c names the two proxies of resource c
+    // proved in unit chunk_init (chunk_of: chunk c names the proxies / hosts / nodes of resource c); here the part this unit needs
     #[verifier::external_body] fn proxy_resource_to_chunk_store(proxy_resource_arr: Vec<[ProxyResource; CHUNK_PARTS]>, with_slots: bool) -> (r: Vec<ChunkStore>)
         ensures r@.len() == proxy_resource_arr@.len(), forall|c: int, k: int| 0 <= c < r@.len() && 0 <= k < 2 ==> #[trigger] r@[c].proxy_addresses[k] == proxy_resource_arr@[c][k].proxy_address
     { unimplemented!() }
@@ -69,7 +69,7 @@ def build(U):
     f.before('Ok(())', "        proof { assert(self.store.clusters@.contains_key(cn)); assert(!old(self).store.clusters@.contains_key(cn)); assert(self.store.clusters@[cn].epoch == self.store.global_epoch); assert(self.store.clusters@[cn].config == default_cluster_config); }", nth=None)
     U.add_fn(f)
     U.add("}\n} // verus!\nfn main() {}\n")
-    U.trust('generate_free_chunks* (allocator, C12) by assumed contract: pure, returns only registered proxies; proxy_resource_to_chunk_store by assumed contract (chunk c names the proxies of resource c; FnMut closure out of reach)',
+    U.trust('generate_free_chunks* (allocator, C12) by assumed contract: pure, returns only registered proxies; proxy_resource_to_chunk_store through the part of its contract proved in unit chunk_init (chunk c names the proxies of resource c)',
             'NonZeroUsize::new by shim (Some iff n != 0)')
 
 MUST_FAIL = '''
